@@ -167,7 +167,10 @@ Observed(p) ==
   ELSE LET n == st.last.new IN
        IF n # Len(pre.jobs) + 1 \/ Len(st.jobs) # n \/ ~st.jobs[n].listed THEN "other"
        ELSE IF st.jobs[n].bad # "none" \/ V(n).cyclic
-            THEN (IF st.jobs[n].canceled /\ NewlyCanceled = {} THEN "start" ELSE IF Waiting(st, n) /\ NewlyCanceled = {} THEN "append"
+            \* a job whose graph cannot be built is canceled by the attempt to start it (and that attempt processes the wait
+            \* list, which may start - or fail to start - other waiting jobs)
+            THEN (IF st.jobs[n].canceled /\ st.jobs[n].lastErr \in {"reserved", "cycle"} THEN "start"
+                  ELSE IF Waiting(st, n) /\ NewlyCanceled = {} THEN "append"
                   ELSE IF Waiting(st, n) THEN "replace" ELSE "other")
        ELSE IF st.jobs[n].started /\ NewlyCanceled = {} THEN "start"
        ELSE IF Waiting(st, n) /\ NewlyCanceled = {} THEN "append"
